@@ -215,12 +215,11 @@ Proof.
     destruct (is_matrix (length x) (length dmu)); [|discriminate]. cbn [bind] in Hdd.
     destruct (working_weights RO dmu var w) as [ww|] eqn:Hww; [|discriminate].
     unfold working_weights in Hww.
-    destruct (vbin (mul RO) dmu dmu) as [d2|] eqn:H1; [|discriminate]. cbn [bind] in Hww.
-    destruct (vbin (mul RO) w d2) as [wd|] eqn:H2; [|discriminate]. cbn [bind] in Hww.
-    apply vbin_inv in H1. destruct H1 as [_ ->].
-    apply vbin_inv in H2. destruct H2 as [L2 ->].
-    apply vbin_inv in Hww. destruct Hww as [L3 _].
-    rewrite !map2_length in *. lia. }
+    destruct (vbin (mul RO) w dmu) as [wd|] eqn:H1; [|discriminate]. cbn [bind] in Hww.
+    destruct (vbin (div RO) dmu var) as [q|] eqn:H2; [|discriminate]. cbn [bind] in Hww.
+    apply vbin_inv in H1. destruct H1 as [L1 _].
+    apply vbin_inv in H2. destruct H2 as [L2 _].
+    lia. }
   destruct Hlens as [Ld Lv].
   destruct (is_matrix_some _ _ _ Hm) as [Hn Hx].
   destruct (compute_ddbeta_spec x dmu var w (length w) p Hn Hp (eq_sym Hx) Ld Lv eq_refl) as (dd' & Hdd' & Ldd & Hent).
